@@ -402,6 +402,30 @@ func shapesFor(w *world) []*shape {
 				s.expectIdx = -1
 			}
 			add(s)
+			if !adopt && !tooDeep {
+				// the same shorter / equal side chain with one of its elements repeated until the batch has more elements than
+				// the node would abandon: a repeated (empty) momentum verifies again, but the chain is not any longer for it
+				for _, dp := range []int{0, n - 1} {
+					dp := dp
+					if dp == n-1 && n == 1 {
+						continue
+					}
+					add(&shape{Name: fmt.Sprintf("fork-depth-%d-%s-duplicated@%d", d, rel, dp),
+						batch: func(w *world) []*nom.DetailedMomentum {
+							var b []*nom.DetailedMomentum
+							for i, m := range side[:n] {
+								b = append(b, m)
+								if i == dp {
+									for k := 0; k < d-n+1; k++ {
+										b = append(b, m)
+									}
+								}
+							}
+							return b
+						},
+						expectChain: localOf, expectErr: true, expectIdx: -1})
+				}
+			}
 			if adopt && d <= 3 {
 				// with the known common part in front
 				add(&shape{Name: fmt.Sprintf("fork-depth-%d-longer-with-known-prefix", d), batch: func(w *world) []*nom.DetailedMomentum { return cat(base(w)[len(base(w))-1:], side[:n]) },
